@@ -241,7 +241,7 @@ def run(ctx):
         ctx.coq_build("C46/Props.v")
 
     rows, metas, viol = [], [], []
-    nseq = ctx.n(140, 1500)
+    nseq = ctx.n(400, 1500)
     for k in range(nseq):
         nonfinite = k % 2 == 1
         parms = grid_parms(ctx, nonfinite)
@@ -307,7 +307,7 @@ def run(ctx):
             return ctx.rng.uniform(-1e-300, 1e-300)
         return ctx.rng.uniform(-1000, 1000)
 
-    for k in range(ctx.n(150, 3000)):
+    for k in range(ctx.n(400, 3000)):
         lo, olo = rf(), rf()
         while lo != lo:
             lo = rf()
